@@ -442,7 +442,6 @@ func c18() *report.Check {
 					}
 					v := newC18Variant(op.Template, op.Method, mark)
 					name := fmt.Sprintf("document variant: x-read-only of %s %s", op.OperationID, apix.MarkVariants[mark])
-					v.sanity(&report.Ctx{Property: c.Property, Stats: &report.Stats{}, NShards: 1, Shard: 1}) // vacuity guard only
 					for _, t := range v.templates {
 						for _, sp := range apix.Spellings(t, apix.Canonical(v.spec, t), apix.LiteralSegs(t)) {
 							switch sp.How {
